@@ -35,14 +35,14 @@ TECHNIQUE = ("Lean 4 refinement proof (section model -> line-level terminal) ove
              "all widths, control codes regenerated from the source on every run (tools/genparts/c15.py) + byte-exact differential execution against the real SectionOutput + character-level "
              "terminal emulator as oracle (explicit-state exploration to depth 4/6, random histories to length 40)")
 LEVEL_TEXT = ("Sections with the gate: suppressed_write_noop (a flagged write the gate of C10 rejects changes nothing and "
-              "writes nothing), gate_simulates / screen_refines_gated (every calm history with per-section quiet / verbosity and "
+              "writes nothing), quiet_op_noop (overwrite / clear on a quiet section likewise), gate_simulates / screen_refines_gated (EVERY history with per-section quiet / verbosity and "
               "flag words shows exactly the stacked contents). "
               "screen_refines is proved for EVERY history of create/write/overwrite/clear/clear(n) on any number of "
               "sections and every width >= 1: interpreting the emitted commands leaves exactly the stacked contents "
               "below the anchor, cursor after the last row, and every section's row counter exact; lex_emit makes the "
               "byte stream and the command list interchangeable; plain_degrades covers outputs without ANSI support. "
               "The hypotheses of these theorems about the real run (width >= 1 as Terminal().width reports it, written "
-              "lines free of newline and ESC, cursor starting on the row below the rows shown; with quiet sections: calmG) are decided by the model on "
+              "lines free of newline and ESC, cursor starting on the row below the rows shown) are decided by the model on "
               "every generated case (wf_decides; entry c15.run answers wf/anchored, compared with true) and "
               "stream_refines_dec / plain_no_esc_dec take the decider instead of the hypotheses. "
               "That the model IS the code is established by comparing bytes, content and lines after every operation "
@@ -53,7 +53,7 @@ LEVEL_NOTE = ("Trusted: Lean kernel + propext/Quot.sound/Classical.choice; the h
               "deferred-wrap semantics; ONLCR on the tty. Scope: tab-free, tag-free lines; indentation (inherited by a "
               "section at creation, changed later) through the layer Model/SectionIndent.lean (screen_refines_indented, no "
               "further hypothesis); quiet / verbosity per section and flag words on the writes through the layer "
-              "Model/SectionGate.lean over C10's translated gate (screen_refines_gated, hypothesis calmG); the sections "
+              "Model/SectionGate.lean over C10's translated gate (screen_refines_gated, no further hypothesis); the sections "
               "fit on the visible screen (CUU stops at the top row), nothing else writes to the stream in between.")
 LEAN_MODULES = ["Clikit.Props.C15"]
 # sections with indentation (Model/SectionIndent.lean): indent_simulates reduces every indented history to the base
@@ -71,7 +71,7 @@ REQUIRED_THEOREMS = ["Clikit.Props.C15.screen_refines", "Clikit.Props.C15.screen
                      # sections with the gate (Model/SectionGate.lean, composed with C10's Gen.mayWrite)
                      "Clikit.Props.C15.suppressed_write_noop", "Clikit.Props.C15.allowed_write_is_write",
                      "Clikit.Props.C15.gate_simulates", "Clikit.Props.C15.screen_refines_gated",
-                     "Clikit.Props.C15.gate_free_is_indented"]
+                     "Clikit.Props.C15.gate_free_is_indented", "Clikit.Props.C15.quiet_op_noop"]
 RULE = ("sec cases: (a) EVERY operation sequence of exactly depth 4 (quick) / 6 (thorough; every shorter sequence is "
         "a prefix and is checked too, because all checks run after every operation) over up to 3 sections with "
         "create, write_line (1-2 lines), overwrite, clear(), clear(n) and line lengths 0 / below / at / above / twice the "
@@ -90,7 +90,7 @@ RULE = ("sec cases: (a) EVERY operation sequence of exactly depth 4 (quick) / 6 
         "None, 0, 1, 2, 4, 6 and the setters set_verbosity / set_quiet as operations (pools GATE_POOL / GATE_POOL_S: quick depth 4 "
         "at width 10, plain depth 3, depth 4 on an indentation profile; thorough depth 5 and 6, width 7, with indentation), "
         "and every fourth random history has sections created quiet or verbose, setters in the middle and flag words 0-7 on "
-        "three quarters of its writes (a tenth of them not calm); "
+        "three quarters of its writes (clear / overwrite on quiet sections that still show lines included: they must change nothing); "
         "term cases: random print/up/erase streams replayed on the Lean terminal and on the emulator. "
         "A sec case is non-trivial when at least one operation had to move the cursor up and erase (ANSI) or wrote "
         "at least two lines (plain); distinct = distinct (width, ansi, operation kinds, targets, line lengths, n)")
@@ -114,11 +114,8 @@ ASSUMPTIONS = [
     "width >= 1 (COLUMNS=0 raises ZeroDivisionError in _count_rows): decided on every case (wfB) for the width "
     "Terminal().width reports (width_seen is compared with the width given to the model)",
     "the gate (quiet / verbosity / message-level flags; the gate itself is C10's Gen.mayWrite, composed in "
-    "Model/SectionGate.lean): a write it suppresses must leave contents, row counters and screen as they were. NOT judged: "
-    "a history from the first overwrite / clear / clear(n) on a section that is QUIET WHILE IT STILL SHOWS LINES (the code "
-    "drops the content and, as C10 demands, writes nothing - screen and contents part company; pending finding); the "
-    "model follows the code there (quietSecs) and gate_simulates / screen_refines_gated carry the hypothesis calmG, "
-    "decided by the model on every case and compared with the harness's own reading (_first_uncalm)",
+    "Model/SectionGate.lean): a call it suppresses - a flagged write below the verbosity, any write / overwrite / clear / "
+    "clear(n) on a quiet section (D41 repaired) - must leave contents, row counters and screen as they were",
 ]
 BUDGET_S = {"quick": 70, "thorough": 760}
 BATCH = 6000
@@ -340,14 +337,13 @@ def _allowed(quiet, verbosity, flags):
 def _random_sec(rng, ansi, maxlen=40, indented=False, gated=False):
     """`indented`: sections are created inside indentation scopes of the output and change their own indentation
     (section.indent(n) / section.increment_indent(n)) in the middle of the history; `gated`: sections inherit quiet /
-    verbosity, change them in the middle, and writes carry flag words (most histories stay calm: no clear / overwrite
-    on a section that is quiet while it shows lines)"""
+    verbosity, change them in the middle, and writes carry flag words"""
     w = rng.choice(WIDTHS)
     n = rng.randint(1, maxlen)
     lens = [0, 1, max(0, w - 1), w, w + 1, 2 * w - 1, 2 * w, 2 * w + 1, 3 * w, 3 * w + 2, rng.randint(0, 4 * w)]
     if indented:
         lens += [max(0, w - 2), max(0, w - 3), max(0, w - 4), max(0, 2 * w - 2)]
-    cfg, shown = [], []          # gated: [quiet, verbosity] and "may hold lines" of every section
+    cfg = []                     # gated: [quiet, verbosity] of every section
 
     def create():
         op = ["create", rng.choice(INDENTS)] if (indented or gated) else ["create"]
@@ -356,12 +352,10 @@ def _random_sec(rng, ansi, maxlen=40, indented=False, gated=False):
                 op[1] = 0
             op += [rng.random() < 0.15, rng.choice(LEVELS)]
             cfg.append([op[2], op[3]])
-            shown.append(False)
         return op
 
     ops, k = [create()], 1
     seed = rng.randint(0, 1000)
-    wild = rng.random() < 0.1
     while len(ops) < n:
         x = rng.random()
         d = len(ops) + seed
@@ -381,24 +375,17 @@ def _random_sec(rng, ansi, maxlen=40, indented=False, gated=False):
                 ops.append(["quiet", i, rng.random() < 0.5])
                 cfg[i][0] = ops[-1][2]
             continue
-        if gated and x >= 0.50 and cfg[i][0] and shown[i] and not wild:
-            x = 0.0         # stay calm: a quiet section that shows lines is only written to
         if x < 0.50:
             m = rng.choice([1, 1, 1, 2, 2, 3])
             ops.append(["write", i, _lines(d, [rng.choice(lens) for _ in range(m)])])
             if gated:
                 if rng.random() < 0.75:
                     ops[-1].append(rng.choice(FLAG_WORDS))
-                shown[i] = shown[i] or _allowed(cfg[i][0], cfg[i][1], ops[-1][3] if len(ops[-1]) > 3 else None)
         elif x < 0.65:
             m = rng.choice([1, 1, 2])
             ops.append(["overwrite", i, _lines(d, [rng.choice(lens) for _ in range(m)])])
-            if gated:
-                shown[i] = not cfg[i][0]
         elif x < 0.75:
             ops.append(["clear", i])
-            if gated:
-                shown[i] = False
         else:
             ops.append(["clearN", i, rng.choice([1, 1, 1, 2, 2, 3, 4, 5, 0])])
     pre = [[], [], ["header"], ["x" * (w + 2), ""]][rng.randrange(4)]
@@ -630,9 +617,9 @@ def model_obs(case, answers):
             # the indentation layer: the base model on the indented history gives the same sections and the same
             # stream (Props.C15.indent_simulates)
             "sim": {"state": a["sim_state"], "stream": a["sim_stream"]},
-            # the gate layer: on a calm history the indented history without the suppressed calls gives the same
-            # sections and the same stream (Props.C15.gate_simulates); `calm` as the model decides it (calmG)
-            "gate": {"calm": a["calm"], "state": a["gate_state"], "stream": a["gate_stream"]}}
+            # the gate layer: the indented history without the suppressed calls gives the same sections and the same
+            # stream (Props.C15.gate_simulates)
+            "gate": {"state": a["gate_state"], "stream": a["gate_stream"]}}
 
 
 def impl_view(case, obs):
@@ -643,7 +630,7 @@ def impl_view(case, obs):
     return {"steps": obs["steps"], "screen": obs["screen"], "lex": True, "run_agrees": True,
             "width_seen": obs["width_seen"], "wf": {"wf": True, "anchored": True},
             "sim": {"state": True, "stream": True},
-            "gate": {"calm": _first_uncalm(case) is None, "state": True, "stream": True}}
+            "gate": {"state": True, "stream": True}}
 
 
 # ------------------------------------------------------------------ oracle
@@ -664,37 +651,10 @@ def _gate_apply(gate, op):
         gate[op[1]][1] = op[2]
 
 
-def _first_uncalm(case):
-    """index of the first overwrite / clear / clear(n) that hits a section while it is QUIET and still holds lines
-    (None: the history is calm).  For such a call C10 demands that nothing is written and C15 that the screen follows
-    the contents; see the oracle."""
-    if not case["ansi"]:
-        return None         # a plain output records nothing and has no screen to keep: appended lines only
-    held, gate = [], []
-    for k, op in enumerate(case["ops"]):
-        _gate_apply(gate, op)
-        if op[0] == "create":
-            held.append(0)
-        elif op[0] == "write":
-            if _allowed(gate[op[1]][0], gate[op[1]][1], op[3] if len(op) > 3 else None):
-                held[op[1]] += len(op[2])
-        elif op[0] in ("overwrite", "clear", "clearN"):
-            if gate[op[1]][0]:
-                if held[op[1]]:
-                    return k
-            elif op[0] == "overwrite":
-                held[op[1]] = len(op[2])
-            elif op[0] == "clear" or op[2] == 0:
-                held[op[1]] = 0
-            else:
-                held[op[1]] = max(0, held[op[1]] - op[2])
-    return None
-
-
 def _spec_apply(contents, op, reported, indents=None, gate=None):
     """the contents the operations ask for (creation order); `indents`: the indentation each section has now;
-    `gate`: [quiet, verbosity] of each section now - a write the gate suppresses asks for nothing, and on a quiet
-    section that holds nothing neither do overwrite / clear"""
+    `gate`: [quiet, verbosity] of each section now - a write the gate suppresses asks for nothing, and neither do
+    overwrite / clear / clear(n) on a quiet section (it writes nothing, so what it shows stays what it holds)"""
     quiet = bool(gate) and op[0] not in ("create",) and gate[op[1]][0]
     if op[0] == "create":
         contents.append([])
@@ -709,7 +669,7 @@ def _spec_apply(contents, op, reported, indents=None, gate=None):
         if gate is None or _allowed(gate[op[1]][0], gate[op[1]][1], op[3] if len(op) > 3 else None):
             contents[op[1]] = contents[op[1]] + _indented(n, op[2])
     elif quiet:
-        pass            # (the section holds nothing: _first_uncalm)
+        pass
     elif op[0] == "overwrite":
         n = indents[op[1]] if indents else 0
         contents[op[1]] = _indented(n, op[2])
@@ -760,16 +720,10 @@ def oracle(case, obs):
         return "harness: the anchor is not at column 0"
     above = emu.screen()[:anchor]
     contents, indents, gate = [], [], []
-    uncalm = _first_uncalm(case)
     for k, (op, st) in enumerate(zip(case["ops"], steps)):
         where = "after op %d %s" % (k, _short(op))
         if "error" in st:
             return "%s raised %s" % (_short(op), st["error"])
-        if k == uncalm:
-            # pending finding, see report: overwrite / clear on a section that is quiet while it still shows lines.
-            # The code drops the content and (rightly, C10) writes nothing, so the screen keeps the lines; this
-            # input class (from this operation on) is not judged.
-            return None
         reported = st["secs"]
         _gate_apply(gate, op)
         _spec_apply(contents, op, reported, indents, gate)
